@@ -138,12 +138,16 @@ structure DlReads (P : Prims) (cfg : Cfg) (ue0 : Ue) (d2 d3 d4 d5 : Bytes) (amf 
   hdec4 : ngapDecode (d4.take 2048) = .ok v4
   hdec5 : ngapDecode (d5.take 2048) ≠ .error .panic ∧ ngapDecode (d5.take 2048) ≠ .error .hang
 
-/-- **`RegisterUE` writes exactly the five uplink messages of the registration**, given what it reads -/
-theorem registerUE_run (P : Prims) (E : Model.Convert.Ext) (cfg : Cfg) (ue0 : Ue) (w : World) (d2 d3 d4 d5 : Bytes)
+/-- **`RegisterUE` writes exactly the five uplink messages of the registration**, given what it reads, and returns the
+    AMF-UE-NGAP-ID it read, K_AMF and the security state after the two protected messages -/
+theorem registerUE_run_result (P : Prims) (E : Model.Convert.Ext) (cfg : Cfg) (ue0 : Ue) (w : World) (d2 d3 d4 d5 : Bytes)
     (rest : List Bytes) (hdls : w.dls = d2 :: d3 :: d4 :: d5 :: rest)
     (suci nas2 b2 nas3 b3 rr smc o1 b4 b5 rc o2 b6 : Bytes) (amf : Int) (keys : Model.KeyDerivation.UeKeys) (ue1 : Ue)
     (R : RegReads P E cfg ue0 w.plmn d2 d3 d4 d5 suci nas2 b2 nas3 b3 rr smc o1 b4 b5 rc o2 b6 amf keys ue1) :
-    ∃ r, registerUE P E cfg ue0 w = ({ w with dls := rest, ulsRev := b6 :: b5 :: b4 :: b3 :: b2 :: w.ulsRev }, .ok r) := by
+    registerUE P E cfg ue0 w = ({ w with dls := rest, ulsRev := b6 :: b5 :: b4 :: b3 :: b2 :: w.ulsRev },
+      .ok { amfUeNgapId := amf, kamf := keys.kamf,
+            sec := (Model.NasProtect.encodeNasPduWithSecurity P (Model.NasProtect.encodeNasPduWithSecurity P
+              (secAfterKeys ue1 keys) smc 4 true true).1 rc 2 true false).1 }) := by
   unfold registerUE
   have pb : ∀ {α β : Type} (a : α) (f : α → M β) (w : World), (pure a >>= f) w = f a w := fun _ _ _ => rfl
   simp only [bind_apply, pb, R.hsuci, orTrap, pure_apply, ctor_ok _ _ _ R.henc2]
@@ -168,12 +172,19 @@ theorem registerUE_run (P : Prims) (E : Model.Convert.Ext) (cfg : Cfg) (ue0 : Ue
     b6 R.hrun6]
   simp only
   cases hd5 : ngapDecode (d5.take 2048) with
-  | ok v => exact ⟨_, rfl⟩
+  | ok v => rfl
   | error e =>
     cases e with
-    | error => exact ⟨_, rfl⟩
+    | error => rfl
     | panic => exact absurd hd5 R.hdec5.1
     | hang => exact absurd hd5 R.hdec5.2
+
+theorem registerUE_run (P : Prims) (E : Model.Convert.Ext) (cfg : Cfg) (ue0 : Ue) (w : World) (d2 d3 d4 d5 : Bytes)
+    (rest : List Bytes) (hdls : w.dls = d2 :: d3 :: d4 :: d5 :: rest)
+    (suci nas2 b2 nas3 b3 rr smc o1 b4 b5 rc o2 b6 : Bytes) (amf : Int) (keys : Model.KeyDerivation.UeKeys) (ue1 : Ue)
+    (R : RegReads P E cfg ue0 w.plmn d2 d3 d4 d5 suci nas2 b2 nas3 b3 rr smc o1 b4 b5 rc o2 b6 amf keys ue1) :
+    ∃ r, registerUE P E cfg ue0 w = ({ w with dls := rest, ulsRev := b6 :: b5 :: b4 :: b3 :: b2 :: w.ulsRev }, .ok r) :=
+  ⟨_, registerUE_run_result P E cfg ue0 w d2 d3 d4 d5 rest hdls suci nas2 b2 nas3 b3 rr smc o1 b4 b5 rc o2 b6 amf keys ue1 R⟩
 
 /-- **test mode with one registration and nothing after it** (`Test_ue_registation` = 1, no PDU session, no de-registration):
     the emulator writes the NG SETUP REQUEST and the five messages of the registration, reads the five downlink messages, and
